@@ -4,3 +4,30 @@ request). pypyr names an error `module.Class` unless the module is exactly `buil
 
 class BuiltError(Exception):
     pass
+
+
+class Service:
+    """exception classes declared inside a class (the `Model.DoesNotExist` / `Client.Timeout` idiom): the canonical
+    error name is still `module.ClassName` = `built.Fatal` / `built.Timeout` (the class's `__name__`)"""
+
+    class Fatal(Exception):
+        pass
+
+    class Inner:
+        class Timeout(Exception):
+            pass
+
+
+def _declare():
+    class Quota(Exception):
+        """declared inside a function: `__qualname__` is `_declare.<locals>.Quota`, the canonical name `built.Quota`"""
+
+    class Holder:
+        class Deep(Exception):
+            pass
+    return Quota, Holder.Deep
+
+
+Fatal = Service.Fatal
+Timeout = Service.Inner.Timeout
+Quota, Deep = _declare()
